@@ -55,6 +55,23 @@ def run_pair(a):
     return idx, rg, rc, rx, r2
 
 
+def unfuse(a, b):
+    """Two reference token sequences that differ only where one printer glued two pp-tokens that the other keeps apart (clang 14 prints
+    `u8` `"s"` as u8"s") agree on the intended sequence: the unglued one.  Returns it, or None if they differ in any other way."""
+    out = []
+    i = j = 0
+    while i < len(a) and j < len(b):
+        if a[i] == b[j]:
+            out.append(a[i]); i += 1; j += 1
+        elif i + 1 < len(a) and a[i] + a[i + 1] == b[j]:
+            out += [a[i], a[i + 1]]; i += 2; j += 1
+        elif j + 1 < len(b) and b[j] + b[j + 1] == a[i]:
+            out += [b[j], b[j + 1]]; i += 1; j += 2
+        else:
+            return None
+    return out if i == len(a) and j == len(b) else None
+
+
 def strip_asm(b):
     return b'\n'.join(l for l in b.split(b'\n') if not l.startswith(b'  .file') and not l.startswith(b'  .loc'))
 
@@ -119,8 +136,11 @@ def run(ctx):
             continue
         tg, tc = pptok.spellings(rg[1].decode('utf-8', 'replace')), pptok.spellings(rc[1].decode('utf-8', 'replace'))
         if tg != tc:
-            ctx.count('pairs_discarded_reference_ambiguous')
-            continue
+            tg = unfuse(tg, tc)
+            if tg is None:
+                ctx.count('pairs_discarded_reference_ambiguous')
+                continue
+            ctx.count('pairs_one_reference_printer_glues_tokens')
         ctx.count('pair_cases')
         ctx.saw('pair:%s,%s' % (na, nb))
         key = 'C19|pair|%s|%s' % (na, nb)
